@@ -29,6 +29,8 @@ def toggle_growth_histories(ck, tier, cases):
         def __init__(self):
             self.l = vsc.rand_list_t(vsc.uint8_t(), sz=2)
             self.m = vsc.rand_list_t(vsc.uint8_t(), sz=2)
+            self.w = vsc.rand_uint8_t()
+            self.d = vsc.rand_uint8_t()
 
         @vsc.constraint
         def small_c(self):
@@ -39,6 +41,14 @@ def toggle_growth_histories(ck, tier, cases):
         def big_c(self):
             with vsc.foreach(self.m) as e:
                 e > 200
+
+        @vsc.constraint
+        def win_c(self):
+            self.w in vsc.rangelist(vsc.rng(10, 20))
+
+        @vsc.constraint
+        def dst_c(self):
+            vsc.dist(self.d, [vsc.weight((30, 33), 3), vsc.weight(40, 1)])
 
     @vsc.randobj
     class Derived(Item):
@@ -58,21 +68,21 @@ def toggle_growth_histories(ck, tier, cases):
             for _ in range(2):
                 self.arr.append(Derived())
     rng = random.Random("C07/toggle-growth/%d" % ck.seed)
-    n_hist = 60 if tier == "thorough" else 6
+    n_hist = 80 if tier == "thorough" else 14
     for h in range(n_hist):
         top = rng.choice(["item", "derived", "holder"])
         root = {"item": Item, "derived": Derived, "holder": Holder}[top]()
         insts = {"item": [((), root, 10)], "derived": [((), root, 5)]}.get(top) or \
             [(("sub",), root.sub, 10), (("arr", 0), root.arr[0], 5), (("arr", 1), root.arr[1], 5)]
-        state = {k: {"small_c": True, "big_c": True} for k in range(len(insts))}
+        state = {k: {"small_c": True, "big_c": True, "win_c": True, "dst_c": True} for k in range(len(insts))}
         ops = []
         free_seen = {}
-        for step in range(rng.randint(6, 14)):
+        for step in range(rng.randint(10, 22)):
             x = rng.random()
             k = rng.randrange(len(insts))
             path, o, lim = insts[k]
             if x < 0.35:
-                bn = rng.choice(["small_c", "big_c"])
+                bn = rng.choice(["small_c", "big_c", "win_c", "dst_c"])
                 v = not state[k][bn] if rng.random() < 0.8 else state[k][bn]
                 ops.append(["constraint_mode", list(path), bn, v])
                 getattr(o, bn).constraint_mode(v)
@@ -110,12 +120,25 @@ def toggle_growth_histories(ck, tier, cases):
                         fs = free_seen.setdefault((kk, "big_c"), [0, 0])
                         fs[0] += 1
                         fs[1] += any(v <= 200 for v in mv)
+                    wv, dv = int(oo.w), int(oo.d)
+                    if state[kk]["win_c"] and not 10 <= wv <= 20:
+                        bad = ("enabled-block-not-enforced", pth, "win_c", wv, "w in [10..20]")
+                    if state[kk]["dst_c"] and dv not in (30, 31, 32, 33, 40):
+                        bad = ("enabled-block-not-enforced", pth, "dst_c", dv, "d in the dist's entries")
+                    if not state[kk]["win_c"]:
+                        fs = free_seen.setdefault((kk, "win_c"), [0, 0])
+                        fs[0] += 1
+                        fs[1] += not 10 <= wv <= 20
+                    if not state[kk]["dst_c"]:
+                        fs = free_seen.setdefault((kk, "dst_c"), [0, 0])
+                        fs[0] += 1
+                        fs[1] += dv not in (30, 31, 32, 33, 40)
                 if bad:
                     ck.oracle_fail(bad[0] + ":" + bad[2], {"top": top, "ops": ops, "instance": list(bad[1])}, bad[3], bad[4])
                     break
         for (kk, bn), (n, out) in free_seen.items():
-            # >= 2 elements of 8 bits each: P(all of 12 calls inside a range of <= 10 or 55 values) < 1e-6
-            if n >= 12 and out == 0:
+            # P(a free 8-bit field stays inside a window of 11 (5) values in all of 5 calls) < 2e-7 per instance and block; lists: >= 2 elements each
+            if n >= 5 and out == 0:
                 ck.oracle_fail("disabled-block-still-enforced:" + bn, {"top": top, "ops": ops, "instance": list(insts[kk][0])},
                                {"calls_with_block_off": n, "calls_leaving_its_range": 0}, "a block that is off constrains nothing")
     ck.sample({"kind": "toggle/growth histories", "histories": n_hist})
